@@ -7,6 +7,7 @@ checker at C04's observation level: action content, operands, tests, arguments, 
 category names, timeouts, destinations (result names of routers are not in the statement's list).
 -/
 import Rpft.Props.C02
+import Rpft.Props.C17
 set_option linter.unusedSimpArgs false
 set_option linter.unusedVariables false
 namespace Rpft.Props.C04
@@ -18,6 +19,25 @@ theorem roundtrip_equiv_of_cert (original recompiled : Flow.Flow) (R : List (St 
     (h : certOk c04Lvl original recompiled R = true) :
     ∀ (env : Nat → Nat) (n : Nat), trace c04Lvl original env n = trace c04Lvl recompiled env n :=
   Props.C02.flows_equiv_of_cert c04Lvl original recompiled R h
+
+/-! ### what recompilation needs of the exported rows (exporter model `Rpft/Export.lean`, tied to
+the real `to_rows` on every flow by the C17 check) -/
+
+open Rpft.Export in
+/-- Exported row ids are pairwise distinct in BOTH id modes, for every flow the exporter accepts
+(any graph: joins, cycles, duplicate short names, multi-action nodes): every `from` cell and
+every `go_to` target of the sheet names exactly one row, so recompilation resolves it uniquely. -/
+theorem exported_row_ids_unique {U : Type} [DecidableEq U] (numbered : Bool) (f : FlowX U)
+    (out : List RowS) (h : strippedRows numbered f = .ok out) : (out.map (·.id)).Nodup := by
+  cases numbered with
+  | false => exact (Props.C17.named_ids_nodup f out h).1
+  | true =>
+    rw [Props.C17.numbered_ids f out h]
+    unfold List.Nodup
+    apply List.Pairwise.map _ _ (List.pairwise_lt_range (n := out.length))
+    intro a b hlt hab
+    have := natStr_inj hab
+    omega
 
 /-- The full statement: for every expressible flow and every export configuration, the flow
 recompiled from the exported sheet is trace-equivalent to the original.  `roundtrip` stands for
